@@ -1,5 +1,6 @@
 import Iota.Driver.Util
 import Iota.Model.Bech32
+import Iota.Model.GoBits
 
 namespace Iota.Driver.Bech32
 open Iota Iota.Driver Iota.Bech32
@@ -25,6 +26,13 @@ def ops : List (String × Handler) := [
       | some s => match decode s with
         | .ok (hrp, d) => s!"ok {hexOfBytes hrp} {hexOfBytes d}"
         | .error e => errStr e
+      | none => badOp
+    | _ => badOp),
+  -- the hand-written model of Go's UTF-8 decoding behind `for i := range s` (Iota/Model/GoBits.lean), which the
+  -- translated `encoding.decode` uses: the byte offsets of the rune starts
+  ("utf8.starts", fun
+    | [h] => match bytesOfHex h with
+      | some s => "ok " ++ ",".intercalate ((Go.runeStarts (s.map UInt8.toBitVec)).map fun i => toString i.toNat)
       | none => badOp
     | _ => badOp)
 ]
